@@ -100,7 +100,7 @@ end
 /-- `_assert_value_type(dataset, vt)` with `vt` given by member name -/
 def assertValueType (attrs : Attrs) (vtName : String) : Except ErrKind Unit :=
   let vt := attrs.lookup "ValueType"
-  let matchesVt := match vt, enumValue Gen.srValueTypes vtName with
+  let matchesVt := match vt, enumValue Gen.c13ValueTypes vtName with
     | some (.str s), some v => s == v
     | _, _ => false
   match Gen.srAssertHead vt.isSome matchesVt with
@@ -121,7 +121,7 @@ def defaultName : Coded := { value := "260753009", scheme := "SCT", meaning := "
 /-- `_from_dataset_base` without the recursion: the guards and the (possibly completed) attributes -/
 def baseAttrs (cls : Cls) (attrs : Attrs) : Except ErrKind Attrs :=
   match Gen.srBaseGuards (has "ValueType" attrs) (has "ConceptNameCodeSequence" attrs)
-      (Gen.srOptionalNameClasses.contains cls.pyName) with
+      (Gen.c13OptionalNameClasses.contains cls.pyName) with
   | .error e => .error e
   | .ok r =>
     let attrs' := if r == 1 then attrs ++ [("ConceptNameCodeSequence", .code defaultName)] else attrs
@@ -144,7 +144,7 @@ def classify (attrs : Attrs) : Except ErrKind (Cls × Attrs) :=
   match attrs.lookup "ValueType" with
   | none => .error .attribute
   | some (.str vt) =>
-    match enumName Gen.srValueTypes vt with
+    match enumName Gen.c13ValueTypes vt with
     | none => .error .value
     | some vtName =>
       match Gen.srDispatch.lookup vtName with
@@ -163,7 +163,7 @@ def checkDataset (attrs : Attrs) (isRoot isSr : Bool) : Except ErrKind Unit :=
   match attrs.lookup "ValueType" with
   | none => .error .attribute
   | some (.str vt) =>
-    if !(enumHas Gen.srValueTypes vt) then .error .value
+    if !(enumHas Gen.c13ValueTypes vt) then .error .value
     else match Gen.srCheckDatasetRel (has "RelationshipType" attrs) isRoot isSr with
       | .error e => .error e
       | .ok _ => .ok ()
@@ -173,7 +173,7 @@ def checkDataset (attrs : Attrs) (isRoot isSr : Bool) : Except ErrKind Unit :=
 def relValid (a : Attrs) : Bool :=
   match a.lookup "RelationshipType" with
   | none => true
-  | some (.str r) => enumHas Gen.srRelationshipTypes r
+  | some (.str r) => enumHas Gen.c13RelationshipTypes r
   | some _ => false
 
 /-- the guards `ContentSequence.__init__` applies to one item (decision tree regenerated for C14, `Gen.csCtorCheck`);
@@ -275,13 +275,13 @@ def base (cls : Cls) (name : Coded) (rel : Option String) : Except ErrKind Attrs
   match Gen.srCtorValueType.lookup cls.pyName with
   | none => .error .other
   | some vtName =>
-    match enumValue Gen.srValueTypes vtName with
+    match enumValue Gen.c13ValueTypes vtName with
     | none => .error .other
     | some vt =>
       let a : Attrs := [("ValueType", .str vt), ("ConceptNameCodeSequence", .code name)]
       match rel with
       | none => .ok a
-      | some r => if enumHas Gen.srRelationshipTypes r then .ok (a ++ [("RelationshipType", .str r)]) else .error .value
+      | some r => if enumHas Gen.c13RelationshipTypes r then .ok (a ++ [("RelationshipType", .str r)]) else .error .value
 
 def withAttrs (cls : Cls) (name : Coded) (rel : Option String) (extra : Attrs) : Except ErrKind Item :=
   match base cls name rel with
@@ -347,7 +347,7 @@ def mkScoord (fl : Rat → Rat) (name : Coded) (gt : String) (p : Points) (origi
   match base .scoord name rel with
   | .error e => .error e
   | .ok a =>
-    match enumName Gen.srGraphicTypes gt with
+    match enumName Gen.c13GraphicTypes gt with
     | none => .error .value
     | some gtName =>
       match Gen.scoordAxesCheck p.ndim with
@@ -357,7 +357,7 @@ def mkScoord (fl : Rat → Rat) (name : Coded) (gt : String) (p : Points) (origi
       | .error e => .error e
       | .ok _ =>
         match origin with
-        | some o => if enumHas Gen.srPixelOrigins o then
+        | some o => if enumHas Gen.c13PixelOrigins o then
             .ok (.mk .scoord (a ++ [("GraphicType", .str gt), ("GraphicData", .rats (p.rows.flatten.map fl)),
                                      ("PixelOriginInterpretation", .str o)] ++ optAttr "FiducialUID" fiducial) none)
           else .error .value
@@ -393,7 +393,7 @@ def mkScoord3d (fl : Rat → Rat) (name : Coded) (gt : String) (p : Points) (fra
   match base .scoord3d name rel with
   | .error e => .error e
   | .ok a =>
-    match enumName Gen.srGraphicTypes3D gt with
+    match enumName Gen.c13GraphicTypes3D gt with
     | none => .error .value
     | some gtName =>
       match Gen.scoord3dAxesCheck p.ndim with
@@ -418,7 +418,7 @@ def mkTcoord (ds : Rat → Rat) (name : Coded) (rangeType : String) (arg : Optio
   match base .tcoord name rel with
   | .error e => .error e
   | .ok a =>
-    if !(enumHas Gen.srTemporalRangeTypes rangeType) then .error .value
+    if !(enumHas Gen.c13TemporalRangeTypes rangeType) then .error .value
     else match arg with
       | none => .error .value
       | some (.positions l) => .ok (.mk .tcoord (a ++ [("TemporalRangeType", .str rangeType), ("ReferencedSamplePositions", .ints l)]) none)
